@@ -10,7 +10,7 @@ Local Open Scope Z_scope.
 Definition key_used (s : state) (t : tx) : option bytes :=
   match t_attached t with
   | Some ka => Some ka
-  | None => match aget (haspk s) (msg_signer (t_msg t)) with Some _ => Some (msg_signer (t_msg t)) | None => None end
+  | None => aget (haspk s) (msg_signer (t_msg t))
   end.
 Theorem ante_accept s t s' : ante s t = Some s' ->
   exists ka, key_used s t = Some ka /\
@@ -38,6 +38,13 @@ Theorem ante_rejects_forgery s t : (forall ka, key_used s t = Some ka -> t_signe
 Proof.
   intros H. destruct (ante s t) as [s'|] eqn:E; auto.
   destruct (ante_accept _ _ _ E) as (ka & K & _ & Sg & Mu & _). destruct H as [H|H]; [exfalso; apply (H ka K Sg)|congruence].
+Qed.
+(* whatever key is used - carried in the signature or looked up from the account record (which a genesis file may
+   have filled with somebody else's key) - it must be the declared signer's own *)
+Theorem ante_rejects_foreign_key s t ka : key_used s t = Some ka -> ka <> msg_signer (t_msg t) -> ante s t = None.
+Proof.
+  intros K N. destruct (ante s t) as [s'|] eqn:E; auto.
+  destruct (ante_accept _ _ _ E) as (kb & Kb & Eq & _). rewrite K in Kb. injection Kb as <-. contradiction.
 Qed.
 Theorem ante_rejects_replay s t : t_in_index t = true -> ante s t = None.
 Proof.
